@@ -4,6 +4,7 @@ One op per input line, one observation line per op; same protocol as
 harness/c09.cpp.  Imports core-Lean model files only (native executable).
 -/
 import SharkVerif.Model.Cache
+import SharkVerif.Model.KernelMatrices
 open SharkVerif.Cache
 
 def baseEntry (a b : Nat) : Int := (a * 1000 + b + 1 : Nat)
@@ -15,12 +16,98 @@ def showState (n : Nat) (c : LRU Int) : String :=
   let lines := (List.range n).map fun i => showList (c.lines i)
   s!"size={c.size} cached={c.cachedLines} lru={c.lru} " ++ " ".intercalate lines
 
+/-! wrapper matrices over integer points with the linear kernel -/
+open SharkVerif.KM in
+inductive W where
+  | kernel (m : Kernel Int) | reg (m : Regularized Int) | mod (m : Modified Int)
+  | pre (m : Precomputed Int) | block (m : Block2 Int) | diff (m : Difference Int)
+  | partly (m : Partly Int)
+
+namespace W
+def entry : W → Nat → Nat → Int
+  | kernel m, i, j => m.entry i j | reg m, i, j => m.entry i j | mod m, i, j => m.entry i j
+  | pre m, i, j => m.entry i j | block m, i, j => m.entry i j | diff m, i, j => m.entry i j
+  | partly m, i, j => m.entry i j
+def row : W → Nat → Nat → Nat → List Int
+  | kernel m, k, s, e => m.row k s e | reg m, k, s, e => m.row k s e | mod m, k, s, e => m.row k s e
+  | pre m, k, s, e => m.row k s e | block m, k, s, e => m.row k s e | diff m, k, s, e => m.row k s e
+  | partly m, k, s, e => (List.range (e - s)).map fun d => m.entry k (s + d)
+def flip : W → Nat → Nat → W
+  | kernel m, i, j => kernel (m.flip i j) | reg m, i, j => reg (m.flip i j) | mod m, i, j => mod (m.flip i j)
+  | pre m, i, j => pre (m.flip i j) | block m, i, j => block (m.flip i j) | diff m, i, j => diff (m.flip i j)
+  | partly m, _, _ => partly m
+end W
+
+structure WSt where
+  n : Nat := 0
+  d : Nat := 0
+  pts : Array Int := #[]
+  labels : Array Nat := #[]
+  diag : Array Nat := #[]
+  w : Option W := none
+  size : Nat := 0
+
+/-- linear kernel on the integer points (coordinates were sent with offset 8) -/
+def WSt.k (s : WSt) (a b : Nat) : Int :=
+  (List.range s.d).foldl (fun acc c => acc + s.pts[a * s.d + c]! * s.pts[b * s.d + c]!) 0
+
 structure St where
   n   : Nat := 0
   cm  : CM Int := CM.init 0 baseEntry 0
   ctr : Nat := 0
+  ws  : WSt := {}
 
 def freshVal (ctr i c : Nat) : Int := (ctr * 512 + i * 40 + c : Nat)
+
+open SharkVerif.KM in
+def wstep (s : WSt) (op : String) (args : List String) : WSt × String :=
+  match op, args with
+  | "wdata", _ =>
+    match args.mapM String.toNat? with
+    | some (n :: d :: _bs :: rest) =>
+      if rest.length != n * d + 2 * n then (s, "bad-op") else
+      let xs : List Int := (rest.take (n * d)).map fun (v : Nat) => (v : Int) - 8
+      let labs := (rest.drop (n * d)).take n
+      let dg := rest.drop (n * d + n)
+      ({ n := n, d := d, pts := xs.toArray, labels := labs.toArray, diag := dg.toArray, w := none, size := 0 }, "ok")
+    | _ => (s, "bad-op")
+  | "wmk", ty :: rest =>
+    match rest.mapM String.toNat? with
+    | none => (s, "bad-op")
+    | some a =>
+      let k := s.k
+      let mk (w : W) (size : Nat) : WSt × String := ({ s with w := some w, size := size }, s!"size={size}")
+      match ty, a with
+      | "kernel", _ => mk (.kernel (Kernel.init k)) s.n
+      | "reg", _ => mk (.reg (Regularized.init k fun i => (s.diag[i]! : Int))) s.n
+      | "mod", [e, n] => mk (.mod (Modified.init k (fun i => s.labels[i]!) (e : Int) (n : Int))) s.n
+      | "pre", fl =>
+        if fl.length % 2 != 0 then (s, "bad-op") else
+        -- flips applied to the base before precomputation
+        let rec pairs : List Nat → List (Nat × Nat)
+          | i :: j :: r => (i, j) :: pairs r
+          | _ => []
+        let base := (pairs fl).foldl (fun b p => b.flip p.1 p.2) (Kernel.init k)
+        mk (.pre (Precomputed.init base.entry)) s.n
+      | "block", _ => mk (.block (Block2.init (Kernel.init k).entry s.n)) (2 * s.n)
+      | "diff", ps =>
+        if ps.length % 2 != 0 || ps.isEmpty then (s, "bad-op") else
+        let arr := ps.toArray
+        mk (.diff (Difference.init k fun i => (arr[2 * i]!, arr[2 * i + 1]!))) (ps.length / 2)
+      | "partly", [bytes] => mk (.partly (Partly.init (Kernel.init k).entry s.n bytes 0)) s.n
+      | _, _ => (s, "bad-op")
+  | _, _ =>
+    match s.w, args.mapM String.toNat? with
+    | some w, some a =>
+      match op, a with
+      | "wflip", [i, j] => ({ s with w := some (w.flip i j) }, "ok")
+      | "wentry", [i, j] => (s, s!"R={w.entry i j}")
+      | "wrow", [k, st, e] => (s, s!"R={showList (w.row k st e)}")
+      | "wmatrix", [] =>
+        let all := (List.range s.size).flatMap fun i => (List.range s.size).map fun j => w.entry i j
+        (s, s!"R={showList all}")
+      | _, _ => (s, "bad-op")
+    | _, _ => (s, "bad-op")
 
 def step (s : St) (line : String) : St × String :=
   let s := { s with ctr := s.ctr + 1 }
@@ -28,6 +115,10 @@ def step (s : St) (line : String) : St × String :=
   match toks with
   | [] => (s, "")
   | op :: args =>
+    if op.startsWith "w" then
+      let (ws, o) := wstep s.ws op args
+      ({ s with ws := ws }, o)
+    else
     match args.mapM String.toNat? with
     | none => (s, "bad-op")
     | some a =>
